@@ -252,6 +252,11 @@ func RenderState(st map[string]any) string {
 
 func ctxOf(gs map[string]any) *Ctx {
 	c, _ := gs["sim"].(*Ctx)
+	if c == nil {
+		// a call made without the GlobalStore option: the glue left the context
+		// with the running client
+		c, _ = simrt.Local().(*Ctx)
+	}
 	return c
 }
 
